@@ -45,7 +45,7 @@ func TestC48(t *testing.T) {
 		stop := rapid.IntRange(0, nSlots).Draw(rt, "stopslot")       // nSlots = all GoOn
 		s := &filtScript{V: map[int][]int{}, RespStatus: rapid.SampledFrom([]int{200, 403, 418, 503}).Draw(rt, "rstatus"),
 			RespBody: rapid.StringMatching(`[a-z]{0,30}`).Draw(rt, "rbody"), RespHeader: map[string]string{"X-Mod": fmt.Sprint(n)},
-			RedirURL: fmt.Sprintf("http://r.example/x%d", n), RedirCode: rapid.SampledFrom([]int{301, 302, 307}).Draw(rt, "rcode")}
+			RedirURL: fmt.Sprintf(rapid.SampledFrom([]string{"http://r.example/x%d", "http://r.example/x%d", "https://r.example/a%%20b/%d?k=v%%26w", "/login%%3Fnext=/admin/%d", "/p%%2Fq/r%d", "/x%%20y/%d?k=v%%26w", "/plain/%d?a=1"}).Draw(rt, "redirect-target"), n), RedirCode: rapid.SampledFrom([]int{301, 302, 307}).Draw(rt, "rcode")}
 		verdict := bfe_module.BfeHandlerGoOn
 		var chain []int
 		point := bfe_module.HandleAccept
@@ -73,7 +73,10 @@ func TestC48(t *testing.T) {
 		}
 		pname := bfe_module.CallbackPointName(point)
 		// the request: bodyless GET, POST with a body, or POST announcing its body with Expect: 100-continue
-		reqKind := rapid.SampledFrom([]string{"get", "get", "post", "post-expect"}).Draw(rt, "request")
+		reqKind := rapid.SampledFrom([]string{"get", "get", "post", "post-expect", "get-after-keepalive", "upgrade-after-keepalive"}).Draw(rt, "request")
+		if pi < 0 && strings.HasSuffix(reqKind, "-after-keepalive") {
+			reqKind = "get" // a Close verdict at HandleAccept leaves no connection to send a first request on
+		}
 		// optionally a second point cooperates: a Finish verdict somewhere in the HandleRequestFinish chain
 		rfStop := -1
 		if pi >= 0 && point != bfe_module.HandleRequestFinish && rapid.IntRange(0, 2).Draw(rt, "finish-at-requestfinish") == 0 {
@@ -112,7 +115,24 @@ func TestC48(t *testing.T) {
 		}
 		defer c.Close()
 		method := "GET"
+		if strings.HasSuffix(reqKind, "-after-keepalive") {
+			// an ordinary request first (no scripted verdicts); the request under test is then not
+			// the first one on its connection
+			pre := target + "/pre"
+			fmt.Fprintf(c, "GET %s HTTP/1.1\r\nHost: example.org\r\n\r\n", pre)
+			_, pm, pclosed, pperr := readOneResponse(c, "GET", 8*time.Second)
+			w.forget(pre)
+			if pperr != nil || pm == nil || pm.Status != 200 || pclosed {
+				rt.Fatalf("rig: preliminary request failed: %v", pperr)
+			}
+		}
 		switch reqKind {
+		case "get-after-keepalive":
+			fmt.Fprintf(c, "GET %s HTTP/1.1\r\nHost: example.org\r\n\r\n", target)
+		case "upgrade-after-keepalive":
+			// only the first request of a connection can start a WebSocket tunnel; a later one
+			// carrying upgrade headers is an ordinary request and goes through the callbacks
+			fmt.Fprintf(c, "GET %s HTTP/1.1\r\nHost: example.org\r\nUpgrade: websocket\r\nConnection: Upgrade\r\nSec-WebSocket-Key: dGhlIHNhbXBsZSBub25jZQ==\r\nSec-WebSocket-Version: 13\r\n\r\n", target)
 		case "get":
 			fmt.Fprintf(c, "GET %s HTTP/1.1\r\nHost: example.org\r\n\r\n", target)
 		case "post":
@@ -145,7 +165,7 @@ func TestC48(t *testing.T) {
 			// body anyway (RFC 7231 5.1.1), so that BFE is not left waiting for it until its read timeout
 			c.Write([]byte("body"))
 		}
-		if reqKind != "get" && perr == nil && !closed {
+		if (reqKind == "post" || reqKind == "post-expect") && perr == nil && !closed {
 			// after a request with a body the sentinel probe is not used (an unread body makes
 			// closing legitimate); just learn whether BFE closes by itself
 			waitClose := 300 * time.Millisecond
